@@ -30,6 +30,7 @@ LEVEL = 'exploration'
 EPS = float(np.finfo(float).eps)
 C_ALLOW = 100.0
 GRIDS = ['uniform', 'geometric', 'cosine', 'jittered']
+SCALED_GRIDS = ['coarse-uniform', 'coarse-jittered', 'fine-cosine']     # spacing ~600 / ~400 / ~1e-10 (exact 2^k scalings)
 NS = range(1, 7)
 MS = range(1, 5)
 NONTRIVIAL_REL = 1e-3      # a point is a non-trivial witness if allowance <= 1e-3 * |exact derivative| != 0
@@ -44,6 +45,12 @@ def grid(kind, N):
         return [-math.cos(math.pi * i / (N - 1)) for i in range(N)]
     if kind == 'jittered':           # deterministic jitter of +-30 % of the spacing
         return [0.1 * (i + 0.3 * math.sin(7.3 * i + 1.0)) for i in range(N)]
+    if kind == 'coarse-uniform':     # the same shapes on other scales: the weights scale like spacing^-n, nothing may
+        return [4096.0 * v for v in grid('uniform', N)]      # be measured against an absolute size
+    if kind == 'coarse-jittered':
+        return [4096.0 * v for v in grid('jittered', N)]
+    if kind == 'fine-cosine':
+        return [3.0 + 2.0 ** -30 * v for v in grid('cosine', N)]
     if kind == 'integer':            # int64 grid, int64 samples
         return [i - N // 2 for i in range(N)]
     raise KeyError(kind)
@@ -286,9 +293,11 @@ def run(ctx):
         for m in MS:
             lmin = 2 * (n // 2 + m) + 2
             for N in lengths(n, m, thorough):
-                for kind in GRIDS + ['integer']:
+                for kind in GRIDS + ['integer'] + SCALED_GRIDS:
                     if kind == 'integer' and ctx.quick and N not in (lmin, lmin + 1, 2 * lmin):
                         continue                  # quick tier: integer-sample sub-space on three lengths
+                    if kind in SCALED_GRIDS and N not in ((lmin, lmin + 2) if ctx.quick else (lmin, lmin + 1, lmin + 2, 2 * lmin)):
+                        continue                  # scaled grids: the short lengths
                     for direction in ('increasing', 'decreasing'):
                         cases.append((n, m, N, kind, direction))
     # most expensive first, dealt over the chunks
@@ -309,12 +318,12 @@ def run(ctx):
             req += ['n=%d,m=%d/left-boundary-%d' % (n, m, i) for i in range(mm)]
             req += ['n=%d,m=%d/right-boundary-%d' % (n, m, i) for i in range(mm)]
             req += ['n=%d,m=%d/first-interior' % (n, m), 'n=%d,m=%d/last-interior' % (n, m)]
-    req += ['grid=' + g for g in GRIDS] + ['direction=increasing', 'direction=decreasing',
+    req += ['grid=' + g for g in GRIDS + SCALED_GRIDS] + ['direction=increasing', 'direction=decreasing',
                                            'length=Lmin', 'length=Lmin+1', 'length=2Lmin', 'length=60',
                                            'centre=0', 'centre=offset'] + ['degree=%d' % d for d in range(1, 15)]
     rule = ('n 1..6 x m 1..4 x lengths {Lmin, Lmin+1, Lmin+2, 2Lmin, 60%s} (Lmin = 2(n//2+m)+2) x grids {uniform, '
             'stretched geometric, cosine-clustered, deterministic jittered; + int64 grid with int64 samples} x '
-            '{increasing, decreasing} x every monomial (x-c)^d, d = 0..2(n//2+m), c in {0, grid mid-point%s}; the '
+            '{increasing, decreasing} (+ the uniform and jittered grids times 4096 and the cosine grid shrunk by 2^-30 around 3, short lengths) x every monomial (x-c)^d, d = 0..2(n//2+m), c in {0, grid mid-point%s}; the '
             'samples are the exact values rounded once; every output entry is compared with the exact rational '
             'n-th derivative at that grid point; allowance 100*eps*sum_j S_j|f_j| over the documented stencil of the '
             'point (S_j >= |w_j| cancellation-free exact weight magnitude: one rounding per sample, the dot product, '
